@@ -529,6 +529,20 @@ class linqset(linkseq[_T], MutableSequenceSet[_T]):
         """
         return iter_link_values(self._link_of(value), -step if reverse else step)
 
+    def __setitem__(self, i, value) -> None:
+        # Keep the hash table in step with the re-valued links.
+        if isinstance(i, slice):
+            links = tuple(iter_links_sliced(self, i))
+        else:
+            links = self._link_at(i),
+        departures = tuple(link.value for link in links)
+        super().__setitem__(i, value)
+        table = self.__table
+        for departure in departures:
+            del table[departure]
+        for link in links:
+            table[link.value] = link
+
     def __contains__(self, value):
         return value in self.__table
 
